@@ -278,6 +278,7 @@ def _slide_ids_in_order(ref: refpkg.RefPackage):
         return []
     rels = {r.rid: r for r in ref.rels_of(mp) or []}
     out = []
+    targets = []
     for el in lst:
         rid = el.get("{%s}id" % refpkg.NS_R)
         r = rels.get(rid)
@@ -286,6 +287,9 @@ def _slide_ids_in_order(ref: refpkg.RefPackage):
         if ref.content_type(r.target) != "application/vnd.openxmlformats-officedocument.presentationml.slide+xml":
             return None  # a slide part declared with an unknown content type loads as a generic part
         out.append(int(el.get("id")))
+        targets.append(r.target)
+    if len(set(targets)) != len(targets):
+        return None  # two slide entries leading to one part (a by-product of combined faults): not a listed irregularity
     return out
 
 
